@@ -382,6 +382,13 @@ func c20Channel(c *core.Ctx, id string, idx int, idle time.Duration) {
 		c.Count("stalled_writes_across_expiry", 1)
 		pattern += "S"
 	}
+	if !st.read && idx%7 == 5 {
+		// a write that passes the idle handler and then fails in the head handler (unsupported message type):
+		// the exception is consumed, the channel stays open, idleness keeps being reported afterwards
+		rig.Ch.Write(struct{ unsupported int }{1})
+		c.Count("failed_writes_before_silence", 1)
+		pattern += "F"
+	}
 	// phase 2: silence
 	silence := 3*idle + 1200*time.Millisecond
 	silenceStart := time.Now()
